@@ -28,7 +28,7 @@ def gen_multipart():
     sp_in = tabs[0][0x20]
 
     def flags(rx):
-        return rx.flags & ~re.UNICODE
+        return int(rx.flags & ~re.UNICODE)
 
     body = f"""namespace Wz.Gen.Multipart
 
